@@ -48,8 +48,8 @@ ASSUMPTIONS = [
     "values must be equal exactly and the returned dtype must be the stored dtype (all five listed dtypes are native in every listed format)",
     "sizes <= 7 per axis; .nia is excluded (neither nibabel nor SimpleITK handle it)",
 ]
-MIN_NONTRIVIAL = {"quick": 3000, "thorough": 10000}
-MIN_OUTCOMES = {"quick": 500, "thorough": 1500}
+MIN_NONTRIVIAL = {"quick": 5000, "thorough": 20000}
+MIN_OUTCOMES = {"quick": 550, "thorough": 2300}
 MIN_SUB_TRACES = {"d2d": 2000, "s2d": 2000, "flow": 300}
 
 EPS32 = 2.0 ** -23
@@ -614,6 +614,10 @@ def run_case(cfg, case) -> Rec:
         if case["chain"] == "s2d":
             return run_s2d(cfg, case["entry"], case["path"], tmp)
         return run_flow(cfg, case["start"], bool(case["explicit"]), case["path"], tmp)
+    except Exception as e:  # noqa: BLE001 - what the library returned could not be observed at all (never crash the shard)
+        rec = Rec()
+        rec.add(sig_prefix(cfg, case["chain"], "any") + f"/unobservable/raises={type(e).__name__}", exc_text(e))
+        return rec
     finally:
         shutil.rmtree(tmp, ignore_errors=True)
 
